@@ -38,6 +38,9 @@ def KeepsStateOf (i : Inst) (post : State) (r : Nat × Ups × FC) : Prop :=
 
 def KeepsStates (i : Inst) (pre post : State) : Prop := ∀ r ∈ pre.fcs, KeepsStateOf i post r
 
+/-- the history contains no action (heartbeat, report, acquire) of instance `i`: `i` is silent. -/
+def Quiet (i : Inst) (ops : List Op) : Prop := ∀ op ∈ ops, op.isBy i = false
+
 /-- **Reclaim, 1 s pass.** Every instance that is dead at `now` loses its heartbeat entry, every in-flight state
     counted for it (all stores), and every labelled condition of it in the shards led. -/
 def ReclaimTimeout (shardOf : Ups → Nat) (now : Nat) (pre post : State) : Prop :=
@@ -87,6 +90,7 @@ def OthersKept (u : Option Ups) (j : Inst) (pre post : State) : Prop :=
     (∀ r ∈ pre.conds, r.2.inst = q.1 →
       (∀ u', u = some u' → ¬(r.2.upstream = u' ∧ (r.2.name = condName u' j ∨ r.2.name = stateName u'))) → r ∈ post.conds)
 
+instance (i : Inst) (ops : List Op) : Decidable (Quiet i ops) := by unfold Quiet; infer_instance
 instance (i : Inst) (s : State) : Decidable (NoHb i s) := by unfold NoHb; infer_instance
 instance (i : Inst) (s : State) : Decidable (NoState i s) := by unfold NoState; infer_instance
 instance (f : Ups → Nat) (i : Inst) (s : State) : Decidable (NoCondLed f i s) := by unfold NoCondLed; infer_instance
@@ -109,21 +113,52 @@ instance (i : Inst) (t : Nat) (a b : State) : Decidable (HeartbeatRecorded i t a
 instance (u : Option Ups) (j : Inst) (a b : State) : Decidable (OthersKept u j a b) := by
   unfold OthersKept; infer_instance
 
+/-- sum of the per-instance in-flight counts of a flow control. -/
+def sumCounts : List (Inst × IState) → Int
+  | [] => 0
+  | p :: t => p.2.count + sumCounts t
+
+/-- **What is counted is what is recorded**: the total of every max-in-flight flow control is the (int32) sum of the
+    counts recorded per instance — so a state that is forgotten is also given back to the total. -/
+def CountsConsistent (s : State) : Prop :=
+  ∀ r ∈ s.fcs, r.2.2.isMif = true → r.2.2.count = toI32 (sumCounts r.2.2.states)
+
+instance (s : State) : Decidable (CountsConsistent s) := by unfold CountsConsistent; infer_instance
+
+/-- a pass deletes no condition in a shard this server does not lead (unknown pass: of a listed upstream). -/
+def ForeignKept (shardOf : Ups → Nat) (needListed : Bool) (pre post : State) : Prop :=
+  ∀ r ∈ pre.conds, isLeader pre (shardOf r.2.upstream) = false →
+    (needListed = true → isListed pre r.2.upstream = true) → r ∈ post.conds
+
+instance (f : Ups → Nat) (b : Bool) (x y : State) : Decidable (ForeignKept f b x y) := by
+  unfold ForeignKept; infer_instance
+
+/-- the answer of an op is not an error. -/
+def Out.isOk : Out → Bool
+  | .err _ => false
+  | _ => true
+
 /-- The judge of one step: the names of the C18 clauses that `(pre, op, out, post)` violates. -/
 def judgeStep (shardOf : Ups → Nat) (pre : State) (op : Op) (ok : Bool) (post : State) : List String :=
   let chk (name : String) (b : Bool) : List String := if b then [] else [name]
   match op with
   | .cleanupTimeout now =>
       chk "c18.timeout-pass-leaves-dead-instance" (decide (ReclaimTimeout shardOf now pre post)) ++
-      chk "c18.live-instance-removed-by-timeout-pass" (decide (LiveSafeTimeout now pre post))
+      chk "c18.live-instance-removed-by-timeout-pass" (decide (LiveSafeTimeout now pre post)) ++
+      chk "c18.pass-deletes-in-foreign-shard" (decide (ForeignKept shardOf false pre post))
   | .cleanupUnknown =>
       chk "c18.unknown-pass-leaves-dead-instance" (decide (ReclaimUnknown shardOf pre post)) ++
-      chk "c18.live-instance-removed-by-unknown-pass" (decide (LiveSafeUnknown pre post))
+      chk "c18.live-instance-removed-by-unknown-pass" (decide (LiveSafeUnknown pre post)) ++
+      chk "c18.pass-deletes-in-foreign-shard" (decide (ForeignKept shardOf true pre post))
   | .report u j _ _ =>
       (if ok then chk "c18.recorded-sum-not-recomputed" (decide (SumRecorded shardOf u post)) else []) ++
       chk "c18.other-instance-removed-by-report" (decide (OthersKept (some u) j pre post))
   | .acquire _ j _ _ => chk "c18.other-instance-removed-by-acquire" (decide (OthersKept none j pre post))
   | .heartbeat i t => chk "c18.heartbeat-not-recorded" (decide (HeartbeatRecorded i t pre post))
   | _ => []
+
+/-- The judge of one observed state. -/
+def judgeState (s : State) : List String :=
+  if decide (CountsConsistent s) then [] else ["c18.count-differs-from-recorded-states"]
 
 end KG.Spec.Reclaim
